@@ -190,80 +190,18 @@ Proof.
   - intros p' q' k' H' Hk'. apply fin_agree; auto.
 Qed.
 
-Corollary gbase_is_pbase h scope e q i : attr_leaf h ->
+Corollary first_stage_is_pbase h scope e q i : attr_leaf h ->
   resolve_base false h scope e = Found q (KCls i) -> pbase h scope e = Some i.
 Proof.
   intros Hleaf H. unfold pbase. rewrite (resolve_base_sound h scope e q (KCls i)); auto. intros e0. discriminate.
 Qed.
 
-(* resolved_bases / the is_class filter, for every list of bases: Griffe's class bases are a subsequence of Python's
-   bases, and they are all of them exactly when no base was dropped. *)
-Definition kept (h : heap) (scope : path) (e : bexpr) : bool :=
-  match resolve_base false h scope e with Found _ (KCls _) => true | _ => false end.
-
-Lemma gbases_cons h scope e es : gbases h scope (e :: es) =
-  (match resolve_base false h scope e with Found _ (KCls i) => [i] | _ => [] end) ++ gbases h scope es.
-Proof.
-  unfold gbases, resolved_objs. simpl. rewrite flat_map_app. f_equal.
-  destruct (resolve_base false h scope e) as [p k| | |]; simpl; auto. destruct k; reflexivity.
-Qed.
-
-Theorem gbases_subseq h scope es bs : attr_leaf h -> map_opt (pbase h scope) es = Some bs ->
-  Subseq (gbases h scope es) bs.
-Proof.
-  intros Hleaf. revert bs. induction es as [|e es IH]; intros bs; simpl.
-  - intros H. inversion H. constructor.
-  - destruct (pbase h scope e) as [i|] eqn:Ep; try discriminate.
-    destruct (map_opt (pbase h scope) es) as [bs'|] eqn:Em; try discriminate.
-    intros H. inversion H; subst. rewrite gbases_cons.
-    destruct (resolve_base false h scope e) as [p k| | |] eqn:Er; simpl; try (constructor; apply IH; reflexivity).
-    destruct k; simpl; try (constructor; apply IH; reflexivity).
-    rewrite (gbase_is_pbase h scope e p i0 Hleaf Er) in Ep. inversion Ep; subst.
-    constructor. apply IH. reflexivity.
-Qed.
-
-Theorem gbases_complete h scope es : attr_leaf h -> forallb (kept h scope) es = true ->
-  map_opt (pbase h scope) es = Some (gbases h scope es).
-Proof.
-  intros Hleaf. induction es as [|e es IH]; simpl; auto.
-  intros H. apply andb_true_iff in H. destruct H as [He Hes].
-  rewrite gbases_cons. unfold kept in He.
-  destruct (resolve_base false h scope e) as [p k| | |] eqn:Er; try discriminate.
-  destruct k; try discriminate.
-  rewrite (gbase_is_pbase h scope e p i Hleaf Er). rewrite (IH Hes). reflexivity.
-Qed.
-
-(* The gap is real: `Base = K1; class C(Base)`.  Griffe ends on the attribute (not a class: dropped by _mro),
-   Python on the class. *)
-Definition assign_heap : heap :=
-  [ (["m"], KMod); (["m"; "K1"], KCls 0); (["m"; "Base"], KAttr (BName "K1")); (["m"; "C"], KCls 1) ].
 Lemma find_obj_In2 h p k : find_obj h p = Some k -> In (p, k) h.
 Proof.
   induction h as [|[q k'] h IH]; simpl; try discriminate.
   destruct (path_eqb q p) eqn:E.
   - intros H. inversion H; subst. left. apply path_eqb_eq in E. subst. reflexivity.
   - intros H. right. auto.
-Qed.
-Example assign_attr_leaf : attr_leaf assign_heap.
-Proof.
-  intros p e n H. apply find_obj_In2 in H. unfold assign_heap in H. simpl in H.
-  destruct H as [H|[H|[H|[H|[]]]]]; inversion H; subst. reflexivity.
-Qed.
-Theorem resolve_assign_refuted : exists h scope e, attr_leaf h /\
-  gbases h scope [e] = [] /\ pbases h scope [e] = Some [0] /\ stops_at_attr h scope e = true.
-Proof. exists assign_heap, ["m"], (BName "Base"). split; [exact assign_attr_leaf|]. repeat split; reflexivity. Qed.
-
-(* ... and it is the only way the two readings of one heap differ on a base that Python can evaluate:
-   if Griffe's resolution does not stop at an assigned name and finds something, it finds Python's class. *)
-Theorem resolve_complete_modulo_assign h scope e i : attr_leaf h ->
-  pbase h scope e = Some i -> stops_at_attr h scope e = false ->
-  (exists q k, resolve_base false h scope e = Found q k) ->
-  exists q, resolve_base false h scope e = Found q (KCls i).
-Proof.
-  intros Hleaf Hp Hs [q [k Hr]]. unfold stops_at_attr in Hs. rewrite Hr in Hs.
-  assert (Hk : not_attr k). { intros e0 ->. discriminate. }
-  pose proof (resolve_base_sound h scope e q k Hleaf Hr Hk) as Ht.
-  unfold pbase in Hp. rewrite Ht in Hp. destruct k; try discriminate. inversion Hp; subst. exists q. exact Hr.
 Qed.
 
 (* non-vacuity: an alias chain through a re-export and a module alias, a subscript, a cyclic alias *)
@@ -308,3 +246,179 @@ Proof.
   - intros H. inversion H; subst.
     split; [discriminate|]. split; [reflexivity|]. discriminate.
 Qed.
+
+
+(* ---------------------------------------------------------------- the assignment-following loop of resolved_bases (fix 3a123f9) *)
+
+Lemma follow_fuel_enough subs h : forall f fl p k,
+  NoDup fl -> incl fl (map fst h) -> List.length (map fst h) < f + List.length fl ->
+  follow_attr subs f h fl p k <> RFuel.
+Proof.
+  induction f as [|f IH]; intros fl p k Hn Hi Hf.
+  - exfalso. pose proof (NoDup_incl_length Hn Hi). simpl in Hf. lia.
+  - destruct k; simpl; try discriminate.
+    destruct (is_sub v && negb subs); try discriminate.
+    pose proof (lookup_path_total false h (canon h (removelast p) v)) as Ht.
+    destruct (lookup_path false h (canon h (removelast p) v)) as [q k'| | |] eqn:El; try discriminate; try congruence.
+    destruct (memp q fl) eqn:Em; try discriminate.
+    apply IH.
+    + constructor; auto. apply memp_false. exact Em.
+    + intros x [<-|Hx]; auto. destruct (lookup_path_found _ _ _ _ _ El) as [Hq _]. eapply find_obj_In; eauto.
+    + simpl. lia.
+Qed.
+
+(* Class.resolved_bases always returns: alias cycles, assignment cycles (A = B; B = A), dangling names. *)
+Theorem gresolve_total subs h scope e : gresolve_s subs h scope e <> RFuel.
+Proof.
+  unfold gresolve_s. pose proof (resolve_base_total false h scope e) as Ht.
+  destruct (resolve_base false h scope e) as [p k| | |] eqn:Er; try discriminate; try congruence.
+  destruct (resolve_base_found _ _ _ _ _ _ Er) as [Hp _].
+  apply follow_fuel_enough.
+  - constructor; [intros []|constructor].
+  - intros x [<-|[]]. eapply find_obj_In; eauto.
+  - simpl. rewrite map_length. lia.
+Qed.
+
+(* a base that does not go through an assigned name is resolved by the first stage alone ... *)
+Lemma gresolve_direct subs h scope e q k : resolve_base false h scope e = Found q k -> not_attr k ->
+  gresolve_s subs h scope e = Found q k.
+Proof.
+  intros H Hk. unfold gresolve_s. rewrite H. destruct k; try reflexivity. exfalso. eapply Hk. reflexivity.
+Qed.
+
+(* ... and is then exactly what the expression denotes in Python, through any chain of aliases *)
+Theorem gresolve_sound_direct h scope e q k : attr_leaf h ->
+  resolve_base false h scope e = Found q k -> not_attr k ->
+  gresolve h scope e = Found q k /\ resolve_base true h scope e = Found q k.
+Proof.
+  intros Hleaf H Hk. split; [apply gresolve_direct; auto|apply resolve_base_sound; auto].
+Qed.
+
+(* The loop against the reading in which EVERY assigned name denotes its value (subscripted values too):
+   identical unless Griffe's answer is an attribute, i.e. unless it stopped at a subscripted value. *)
+Lemma follow_attr_subs h : forall f fl p k r, follow_attr false f h fl p k = r ->
+  (forall q v, r <> Found q (KAttr v)) -> follow_attr true f h fl p k = r.
+Proof.
+  induction f as [|f IH]; intros fl p k r H Hr.
+  - destruct k; simpl in *; auto. destruct (is_sub v); simpl in *; auto. subst r. exfalso. eapply Hr. reflexivity.
+  - destruct k; simpl in *; auto. destruct (is_sub v); simpl in *.
+    + subst r. exfalso. eapply Hr. reflexivity.
+    + destruct (lookup_path false h (canon h (removelast p) v)) as [q k'| | |]; auto.
+      destruct (memp q fl); auto.
+Qed.
+
+Theorem gresolve_agree h scope e : (forall q v, gresolve h scope e <> Found q (KAttr v)) ->
+  gresolve_s true h scope e = gresolve h scope e.
+Proof.
+  unfold gresolve, gresolve_s. intros H. destruct (resolve_base false h scope e) as [p k| | |]; auto.
+  apply follow_attr_subs; auto.
+Qed.
+
+(* what the loop returns is an object of the collection, never an alias *)
+Lemma follow_found subs h : forall f fl p k q kq, find_obj h p = Some k -> (forall t, k <> KAlias t) ->
+  follow_attr subs f h fl p k = Found q kq -> find_obj h q = Some kq /\ (forall t, kq <> KAlias t).
+Proof.
+  induction f as [|f IH]; intros fl p k q kq Hp Hk H.
+  - destruct k; simpl in H; try (inversion H; subst; auto; fail).
+    destruct (is_sub v && negb subs); [inversion H; subst; auto|discriminate].
+  - destruct k; simpl in H; try (inversion H; subst; auto; fail).
+    destruct (is_sub v && negb subs); [inversion H; subst; auto|].
+    destruct (lookup_path false h (canon h (removelast p) v)) as [q' k'| | |] eqn:El; try discriminate.
+    destruct (memp q' fl); try discriminate.
+    destruct (lookup_path_found _ _ _ _ _ El) as [Hq Ha]. eapply IH; eauto.
+Qed.
+
+Theorem gresolve_found subs h scope e q k : gresolve_s subs h scope e = Found q k ->
+  find_obj h q = Some k /\ (forall t, k <> KAlias t).
+Proof.
+  unfold gresolve_s. destruct (resolve_base false h scope e) as [p k0| | |] eqn:Er; try discriminate.
+  destruct (resolve_base_found _ _ _ _ _ _ Er) as [Hp Ha]. intros H. eapply follow_found; eauto.
+Qed.
+
+(* resolved_bases / the is_class filter, for every list of bases *)
+Definition p1base (h : heap) (scope : path) (e : bexpr) : option nat :=
+  match gresolve_s true h scope e with Found _ (KCls i) => Some i | _ => None end.
+Definition kept (h : heap) (scope : path) (e : bexpr) : bool :=
+  match gresolve h scope e with Found _ (KCls _) => true | _ => false end.
+
+Lemma gbases_cons h scope e es : gbases h scope (e :: es) =
+  (match gresolve h scope e with Found _ (KCls i) => [i] | _ => [] end) ++ gbases h scope es.
+Proof.
+  unfold gbases, resolved_objs. simpl. rewrite flat_map_app. f_equal.
+  destruct (gresolve h scope e) as [p k| | |]; simpl; auto. destruct k; reflexivity.
+Qed.
+
+Lemma gbase_is_p1base h scope e q i : gresolve h scope e = Found q (KCls i) -> p1base h scope e = Some i.
+Proof.
+  intros H. unfold p1base. rewrite gresolve_agree; [rewrite H; reflexivity|].
+  intros q' v. rewrite H. discriminate.
+Qed.
+
+Theorem gbases_subseq h scope es bs : map_opt (p1base h scope) es = Some bs -> Subseq (gbases h scope es) bs.
+Proof.
+  revert bs. induction es as [|e es IH]; intros bs; simpl.
+  - intros H. inversion H. constructor.
+  - destruct (p1base h scope e) as [i|] eqn:Ep; try discriminate.
+    destruct (map_opt (p1base h scope) es) as [bs'|] eqn:Em; try discriminate.
+    intros H. inversion H; subst. rewrite gbases_cons.
+    destruct (gresolve h scope e) as [p k| | |] eqn:Er; simpl; try (constructor; apply IH; reflexivity).
+    destruct k; simpl; try (constructor; apply IH; reflexivity).
+    rewrite (gbase_is_p1base h scope e p i0 Er) in Ep. inversion Ep; subst.
+    constructor. apply IH. reflexivity.
+Qed.
+
+Theorem gbases_complete h scope es : forallb (kept h scope) es = true ->
+  map_opt (p1base h scope) es = Some (gbases h scope es).
+Proof.
+  induction es as [|e es IH]; simpl; auto.
+  intros H. apply andb_true_iff in H. destruct H as [He Hes].
+  rewrite gbases_cons. unfold kept in He.
+  destruct (gresolve h scope e) as [p k| | |] eqn:Er; try discriminate.
+  destruct k; try discriminate.
+  rewrite (gbase_is_p1base h scope e p i Er). rewrite (IH Hes). reflexivity.
+Qed.
+
+(* for bases that involve no assignment at all, that reading is Python's full one (nested evaluation) *)
+Theorem gbases_alias_only h scope es : attr_leaf h ->
+  forallb (fun e => match resolve_base false h scope e with Found _ (KCls _) => true | _ => false end) es = true ->
+  map_opt (pbase h scope) es = Some (gbases h scope es).
+Proof.
+  intros Hleaf. induction es as [|e es IH]; simpl; auto.
+  intros H. apply andb_true_iff in H. destruct H as [He Hes].
+  rewrite gbases_cons.
+  destruct (resolve_base false h scope e) as [p k| | |] eqn:Er; try discriminate.
+  destruct k; try discriminate.
+  rewrite (first_stage_is_pbase h scope e p i Hleaf Er).
+  assert (Hg : gresolve h scope e = Found p (KCls i)) by (apply gresolve_direct; auto; intros e0; discriminate).
+  rewrite Hg. rewrite (IH Hes). reflexivity.
+Qed.
+
+(* Repaired (was finding C07-F2): `Base = K1; class C(Base)`, also through a chain `B2 = Base`; cycles are dropped. *)
+Definition assign_heap : heap :=
+  [ (["m"], KMod); (["m"; "K1"], KCls 0); (["m"; "Base"], KAttr (BName "K1")); (["m"; "B2"], KAttr (BName "Base"));
+    (["m"; "L1"], KAttr (BName "L2")); (["m"; "L2"], KAttr (BName "L1")); (["m"; "C"], KCls 1) ].
+Example assign_followed :
+  gbases assign_heap ["m"] [BName "Base"] = [0] /\ gbases assign_heap ["m"] [BName "B2"] = [0] /\
+  pbases assign_heap ["m"] [BName "B2"] = Some [0] /\
+  gresolve assign_heap ["m"] (BName "L1") = RKey /\ gbases assign_heap ["m"] [BName "L1"; BName "Base"] = [0].
+Proof. repeat split; reflexivity. Qed.
+
+(* What remains of C07-F2 (narrowed): (a) a subscripted value is not followed, (b) an assigned name in the MIDDLE of an
+   attribute chain is not followed, (c) the collection keeps the LAST binding of a name, CPython used the one current
+   when the class statement ran. *)
+Definition sub_heap : heap :=
+  [ (["m"], KMod); (["m"; "G"], KCls 0); (["m"; "IntG"], KAttr (BSub (BName "G"))); (["m"; "D"], KCls 1) ].
+Definition mid_heap : heap :=
+  [ (["m"], KMod); (["m"; "H"], KObj); (["m"; "H"; "Inner"], KCls 0); (["m"; "ns"], KAttr (BName "H")); (["m"; "E"], KCls 1) ].
+Definition rebind_prog : prog :=
+  mkProg [ (["m"], KMod); (["m"; "K1"], KCls 0); (["m"; "K2"], KCls 1); (["m"; "Base"], KAttr (BName "K2")); (["m"; "C"], KCls 2) ]
+         [ mkX ["m"; "K1"] ["m"] [] [] []; mkX ["m"; "K2"] ["m"] [] [] []; mkX ["m"; "C"] ["m"] [BName "Base"] [] [] ]
+         [] ["object"]
+         [ (["m"; "Base"], KAttr (BName "K1")) ].
+Theorem resolve_assign_narrowed_refuted :
+  (gbases sub_heap ["m"] [BName "IntG"] = [] /\ pbases sub_heap ["m"] [BName "IntG"] = Some [0] /\
+   stops_at_attr sub_heap ["m"] (BName "IntG") = true) /\
+  (gbases mid_heap ["m"] [BAttr (BName "ns") "Inner"] = [] /\ pbases mid_heap ["m"] [BAttr (BName "ns") "Inner"] = Some [0]) /\
+  (cbases (nth_cls (gtbl rebind_prog) 2) = [1] /\ cbases (nth_cls (ptbl rebind_prog) 2) = [0] /\
+   misresolved rebind_prog (mkX ["m"; "C"] ["m"] [BName "Base"] [] []) (BName "Base") = true).
+Proof. repeat split; reflexivity. Qed.
